@@ -43,7 +43,10 @@ def gen_history(rng, nops, keys, mix):
             ops.append('%s %s' % (k, hexs(key)))
         elif k == 'walk':
             n = rng.choice([0, 1, 2, 3, len(keys) // 2, len(keys) + 2, len(keys) + 2, len(keys) + 2])
-            ops.append('walk %d' % n)
+            if rng.random() < 0.25 and key:      # the same walk with reads (get, find-min/max, size) between the steps
+                ops.append('walk %d %s' % (n, hexs(key)))
+            else:
+                ops.append('walk %d' % n)
         elif k == 'near':
             probe = rng.choice(keys)
             r = rng.random()
